@@ -94,7 +94,7 @@ func (s plSched) build() core.Schedule {
 
 // the schedule as it is written in a pandora config (a composite as a plain list: the
 // list -> composite hook of core/import is on the path)
-func (s plSched) confValue() interface{} {
+func (s plSched) confValue(yamlShape bool) interface{} {
 	m := map[string]interface{}{"type": s.Ctor}
 	switch s.Ctor {
 	case "once":
@@ -112,9 +112,17 @@ func (s plSched) confValue() interface{} {
 	case "composite":
 		var l []interface{}
 		for _, k := range s.Kids {
-			l = append(l, k.confValue())
+			l = append(l, k.confValue(yamlShape))
 		}
 		return l
+	}
+	if yamlShape {
+		// what yaml.v2 produces (the acceptance tests' path); viper (the CLI path) gives map[string]interface{}
+		y := map[interface{}]interface{}{}
+		for k, v := range m {
+			y[k] = v
+		}
+		return y
 	}
 	return m
 }
@@ -130,7 +138,7 @@ type plDecoded struct {
 func (c plConf) decode() plDecoded {
 	var d plDecoded
 	err := config.DecodeAndValidate(map[string]interface{}{
-		"startup": c.Startup.confValue(), "rps": c.RPS.confValue(),
+		"startup": c.Startup.confValue(c.YamlShape), "rps": c.RPS.confValue(c.YamlShape),
 		"rps-per-instance": c.Per, "discard_overflow": c.Discard}, &d)
 	if err != nil {
 		panic(fmt.Sprintf("config decode of %s / %s: %v", c.Startup, c.RPS, err))
@@ -254,6 +262,7 @@ type plConf struct {
 	ProvDelay time.Duration // pause of the provider between two items
 	Past      time.Duration // RPS schedules are started this far in the past (provokes discards); 0 = lazy start
 	Explicit  bool          // startup schedule started explicitly at its first use (else lazily by Next)
+	YamlShape bool          // nested config maps are map[interface{}]interface{} (yaml.v2) instead of viper's
 	ViaConf   bool          // schedules, rps-per-instance and discard_overflow come out of pandora's config decoding
 	Case      int           // M2: index of the TLC-generated case, -1 otherwise
 }
@@ -713,6 +722,7 @@ func plRandConf(rng *rand.Rand, focus string) plConf {
 	c.Discard = rng.Intn(2) == 0
 	c.Explicit = rng.Intn(2) == 0
 	c.ViaConf = rng.Intn(3) == 0
+	c.YamlShape = rng.Intn(2) == 0
 	c.ShotMax = time.Duration(rng.Intn(4)) * time.Millisecond
 	if rng.Intn(3) == 0 {
 		c.ProvDelay = time.Duration(rng.Intn(800)) * time.Microsecond
@@ -887,8 +897,8 @@ func poolMain(args []string) {
 		w.Emit(map[string]interface{}{"run": i, "seq": 0, "ev": "conf",
 			"n": c.Startup.tokens(), "t": c.RPS.tokens(), "tmin": c.RPS.minTokens(), "a": c.A, "per": c.Per, "discard": c.Discard,
 			"sparts": c.Startup.parts(), "explicit": c.Explicit, "case": c.Case,
-			"desc": fmt.Sprintf("startup=%s rps=%s per=%v discard=%v a=%d past=%s shot<=%s provdelay=%s explicit=%v viaconf=%v",
-				c.Startup, c.RPS, c.Per, c.Discard, c.A, c.Past, c.ShotMax, c.ProvDelay, c.Explicit, c.ViaConf)})
+			"desc": fmt.Sprintf("startup=%s rps=%s per=%v discard=%v a=%d past=%s shot<=%s provdelay=%s explicit=%v viaconf=%v yamlshape=%v",
+				c.Startup, c.RPS, c.Per, c.Discard, c.A, c.Past, c.ShotMax, c.ProvDelay, c.Explicit, c.ViaConf, c.ViaConf && c.YamlShape)})
 		for _, e := range res.evs {
 			e.Run = i
 			w.Emit(e)
